@@ -16,7 +16,7 @@ class Expected:
     __slots__ = ("data", "errors", "resolved", "invoked", "crash",
                  "positions", "root_keys", "merged_groups", "frag_applied",
                  "frag_rejected", "max_list", "root_spans", "arg_errors",
-                 "uncalled")
+                 "uncalled", "divergent_groups")
 
     def __init__(self):
         self.data = None
@@ -32,6 +32,7 @@ class Expected:
         self.max_list = 0
         self.arg_errors = 0
         self.uncalled = set()  # resolved paths whose resolver is not called
+        self.divergent_groups = 0  # same first node, other merged group
 
 
 def serialize_leaf(base, v):
@@ -67,6 +68,7 @@ class Model:
         self.world = world
         self.exp = Expected()
         self.seq = 0
+        self._groups = {}
 
     # -- CollectFields ----------------------------------------------------
     def collect(self, tname, selections, visited, out):
@@ -176,6 +178,12 @@ class Model:
         base = t[1]
         if self.spec.is_composite(base):
             concrete = obj_type(value)
+            gk = (concrete, id(nodes[0]))
+            sig = tuple(id(n) for n in nodes)
+            if self._groups.setdefault(gk, sig) != sig:
+                # the same first node stands for different merged groups in
+                # one request (reached through different concrete parents)
+                exp.divergent_groups += 1
             sels = []
             for n in nodes:
                 if n.sel:
